@@ -62,7 +62,7 @@ def gen(profile, **kw):
 
 
 def gen_cqd(rng):
-    case = archlib.gen_case(rng, "percell", kinds=("grid", "cvt"), dtype="f64")
+    case = archlib.gen_case(rng, "percell", kinds=("grid", "cvt"), dtype="f64", huge=False)
     case["profile"] = "cqd"
     nd = len(case["dims"])
     its = rng.randint(1, 3)
